@@ -105,14 +105,22 @@ func fwdBinary(ctx *core.Ctx) string {
 	return binPath
 }
 
-func cleanup(ctx *core.Ctx) { os.RemoveAll(workDir(ctx)) }
+func cleanup(ctx *core.Ctx) {
+	termLogRestore()
+	os.RemoveAll(workDir(ctx))
+}
 
 func Run(ctx *core.Ctx) {
 	ctx.SetRule("one case = one configuration of the real binary (secret-bearing flags given as flags, FORWARDER_* variables or " +
-		"config-file entries; log level/format/log-http mode; upstream proxy, site credentials, TLS/MITM/CA data: URIs) run twice with two " +
-		"independent secret assignments and driven with GET, CONNECT, /configz, a 407 and a 502 exchange; every case is non-trivial " +
-		"(at least one secret-bearing flag is set and the process served the requests); distinct = distinct configurations")
-	ctx.Assume("C19: the theorems cover the configuration dump (start-up 'configuration:' lines, /configz); every other log line, the request log and the error responses are covered by the search on the running binary only")
+		"config-file entries; log level/format/log-http mode; upstream proxy over http or https, site credentials, TLS/MITM/CA data: URIs) run twice with two " +
+		"independent secret assignments. Kind run: driven with GET, CONNECT (intercepted when MITM is on), /configz, a 407 and a 502 exchange, then with " +
+		"GET and CONNECT/intercepted GET once per fault shape of the upstream proxy and of the origin (closed at accept, reset, closed after the request, " +
+		"truncated head, non-HTTP bytes, 407/401/403/502 with and without body, stall, refused). Kind startfail: one thing in the configuration makes the " +
+		"start-up fail after the values were read (mismatching or non-PEM key material, unparsable PAC, a rejected host/port/scheme after the user:password, " +
+		"duplicate credentials, occupied port). Non-trivial = at least one secret-bearing flag is set and the process served the requests / exited with status 1; " +
+		"distinct = distinct configurations")
+	ctx.Assume("C19: the theorems cover the configuration dump (start-up 'configuration:' lines, /configz), the 'using upstream proxy' line and the two error texts that render a flag value (rejected flag value, --cacert-file without certificate); every other log line, the request log and the error responses are covered by the search on the running binary only")
+	ctx.Assume("C19: the log lines the proxy writes about exchanges that fail because of a fault of the upstream proxy / origin are searched like the start-up log, except the header dumps of --log-http errors for 5xx exchanges (the property covers request log lines of successful exchanges)")
 	ctx.Assume("C19: a secret is searched literally, as base64 (std/url, padded/raw) of the password and of user:password, percent-encoded (query, path, userinfo, all bytes), as Go/JSON string literal, hex, and for data: payloads as fragments and decoded PEM lines; other forms are caught only by the diff of two runs that differ in the secrets alone")
 	ctx.Assume("C19: flag table extracted syntactically (go/ast) from bind/*.go and command/run/*.go of the tree under verification: constructor name and presence of a redactor argument")
 	defer cleanup(ctx)
@@ -123,13 +131,28 @@ func Run(ctx *core.Ctx) {
 	for _, c := range core.LoadCorpus(ctx.Root, "C19") {
 		replayCase(ctx, c)
 	}
-	n := ctx.N(160, 3500)
+	n := ctx.N(160, 2400)
 	if v, err := strconv.Atoi(os.Getenv("C19_CASES")); err == nil && v >= 0 {
 		n = v // development aid only; registered commands do not set it
 	}
 	cases := make([]*Case, n)
 	for i := range cases {
 		cases[i] = genCase(ctx.Rng.Sub(), i)
+	}
+	nf := ctx.N(240, 2400)
+	if v, err := strconv.Atoi(os.Getenv("C19_FAIL_CASES")); err == nil && v >= 0 {
+		nf = v // development aid only
+	}
+	for i := 0; i < nf; i++ {
+		// interleaved with the serving cases (they take longer)
+		fc := genFailCase(ctx.Rng.Sub(), i)
+		at := len(cases)
+		if n > 0 {
+			at = (i * (n + nf) / nf) % (len(cases) + 1)
+		}
+		cases = append(cases, nil)
+		copy(cases[at+1:], cases[at:])
+		cases[at] = fc
 	}
 	var wg sync.WaitGroup
 	jobs := make(chan *Case)
@@ -146,8 +169,10 @@ func Run(ctx *core.Ctx) {
 			}
 		}()
 	}
-	for i, c := range cases {
-		if i < 3 {
+	samples := map[string]int{}
+	for _, c := range cases {
+		if samples[c.Kind] < 2 {
+			samples[c.Kind]++
 			ctx.Sample(c)
 		}
 		jobs <- c
@@ -167,7 +192,7 @@ func Replay(ctx *core.Ctx, raw json.RawMessage) {
 
 func replayCase(ctx *core.Ctx, raw json.RawMessage) {
 	var c Case
-	if err := json.Unmarshal(raw, &c); err != nil || c.Kind != "run" {
+	if err := json.Unmarshal(raw, &c); err != nil || c.Kind != "run" && c.Kind != "startfail" {
 		core.Fatalf("C19: not a C19 case: %v %s", err, tail(string(raw), 200))
 	}
 	checkCase(ctx, &c)
